@@ -18,7 +18,7 @@ pub fn run(cfg: &Cfg, out: &mut Out) {
         let cf = r.chance(1, 3);
         let tree = env.build_tree(&gen_tree(&mut r, cf));
         let first = env.check_out(out, &tree);
-        if first.result.is_err() { out.oracle_fail("checkout:error", "initial checkout failed".into()); continue; }
+        if first.result.is_err() { ofail(out, "checkout:error", "initial checkout failed".into()); continue; }
         for _ in 0..6 {
             let pats = { let mut v = gen_sparse(&mut r); if r.chance(1, 10) { v.clear(); } v };
             let ids_before = env.current_tree().tree_ids().clone();
@@ -26,7 +26,7 @@ pub fn run(cfg: &Cfg, out: &mut Out) {
             let pre = &res.pre;
             let (disk, _states, stats) = match &res.result {
                 Ok(x) => x,
-                Err(e) => { out.oracle_fail(&format!("sparse:{e}"), format!("set_sparse_patterns({}) failed on disk {} tree {}", show_seq(&pats), show_disk(&pre.disk), show_tree(&pre.tree))); break; }
+                Err(e) => { ofail(out, &format!("sparse:{e}"), format!("set_sparse_patterns({}) failed on disk {} tree {}", show_seq(&pats), show_disk(&pre.disk), show_tree(&pre.tree))); break; }
             };
             let ctx = || format!("tree={} sparse {} -> {} pre-disk={} -> disk={} stats={:?}", show_tree(&pre.tree), show_seq(&pre.sparse), show_seq(&pats),
                                  show_disk(&pre.disk), show_disk(disk), stats);
@@ -69,7 +69,7 @@ pub fn run(cfg: &Cfg, out: &mut Out) {
             if stats.added_files as usize != entering || stats.removed_files as usize != leaving || stats.updated_files != 0 {
                 bad.get_or_insert(("sparse:wrong-counts", format!("entering={entering} leaving={leaving}; {}", ctx())));
             }
-            match bad { None => out.oracle_ok(), Some((sig, d)) => out.oracle_fail(sig, d) }
+            match bad { None => out.oracle_ok(), Some((sig, d)) => ofail(out, sig, d) }
             out.tally("change", if entering > 0 && leaving > 0 { "both" } else if entering > 0 { "adds" } else if leaving > 0 { "removes" } else { "none" });
             if entering + leaving > 0 { out.nontrivial((show_tree(&pre.tree), show_seq(&pre.sparse), show_seq(&pats), show_disk(&pre.disk))); }
             // edits + snapshot under the new patterns: outside paths must stay in the tree.
